@@ -14,6 +14,7 @@
   validator accepts 1 and 10¹² of every asset) on a discarded branch after every step.
 -/
 import AllianceProofs
+import AllianceProofs.ArithTie
 import AllianceProps.C08
 namespace Alliance
 namespace C05
